@@ -160,6 +160,14 @@ def check_site(r, rule, nn, site, mode, spaceA, spaceB, self_policy, equal_lengt
     rep.ob(rule + "-IST", con, ok6, "reported value is computed from the elements at the reported positions, each subscripted in its own space", where,
            expected="distance(query[A], reference[B])", found=why6, key=f"{K} operands")
 
+    # ---- a guard of the site that skips pairs of unequal length establishes the equal-length context itself (plain Hamming is then the
+    #      Hamming replacement: the two differ only on unequal lengths)
+    if cd == "hamming" and not equal_length_context:
+        for atom_, pol_ in site.guards:
+            c_ = classify(nn, site, atom_, pol_, dinfo)
+            if c_[0] == "lenfilter" and c_[1]:
+                equal_length_context = True
+                break
     # ---- reported kind by mode
     want = {"none": {"LEV"}, "hamming": {"HAMEQ"} | ({"HAM"} if equal_length_context else set()), "callable": {"CUST"}}[cd]
     bk = base_kind(dinfo["kind"])
